@@ -46,10 +46,17 @@ def cases(tier, seed):
     return out
 
 
+# further layouts of per-line files: an empty line after the last document, no newline after the last document, one
+# single-line file per document
+EXTRA_LAYOUTS = ["lines-blank-end", "lines-no-newline", "lines-files"]
+
+
 def observe(cs):
     chunk = 25
     work = [{"cid": "f%d" % k, "op": "fieldmap", "timeout": 900,
-             "cases": [{"docs": c["docs"], "field_mapping": fieldmap.to_field_mapping(c["map"])} for c in cs[k:k + chunk]]}
+             "cases": [{"docs": c["docs"], "field_mapping": fieldmap.to_field_mapping(c["map"]),
+                        "modes": ["whole", "lines", EXTRA_LAYOUTS[(k + j) % len(EXTRA_LAYOUTS)]]}
+                       for j, c in enumerate(cs[k:k + chunk])]}
             for k in range(0, len(cs), chunk)]
     res = learner.run_cases(work, parallel=14)
     outs = []
@@ -72,7 +79,7 @@ def norm(evs):
 def evaluate(chk, cs, outs, stats):
     jc, jo, owner = [], [], []
     for ci, (c, o) in enumerate(zip(cs, outs)):
-        for mode in ("whole", "lines"):
+        for mode in sorted(o):
             if "error" in o[mode]:
                 chk.violation("case %d (%s)" % (ci, mode), "raised:" + o[mode]["error"].split(":")[0],
                               {"docs": c["docs"], "field_mapping": fieldmap.to_field_mapping(c["map"]), "error": o[mode]["error"]})
@@ -107,7 +114,8 @@ def run(chk, tier, seed):
                    "probability 0-0.4; empty and absent arrays; numeric, textual and invalid timestamps) x mappings drawn from "
                    "the documented forms (plain path, header value, key/value lookup, priority list, concatenation), plus a "
                    "small exhaustive family (each optional key absent / null; empty / absent arrays at every level); each case "
-                   "in whole-file and one-JSON-per-line mode; non-trivial = at least two spans extracted",
+                   "in whole-file and one-JSON-per-line mode, plus one further per-line file layout (empty line after the last "
+                   "document / no final newline / one single-line file per document); non-trivial = at least two spans extracted",
            "records_flattened_by_the_specification": nrec, "exhaustive": False}
     return cov, ["all array prefixes of a mapping lie on one chain (resource_spans -> scope_spans -> spans)",
                  "key values of a lookup are unique inside their attribute array; documents contain no booleans",
